@@ -50,13 +50,22 @@ def _desc(v):
     return ("object", v, v)
 
 
+# class attributes the interpreter / standard library create lazily on first use (copyreg's slot-name
+# cache when an instance is first copied or pickled, typing's protocol caches, lazily materialised
+# annotations): they appear once per process whenever the triggering call first happens, inside a
+# journal or not, and are not the journal's doing
+INTERPRETER_CACHES = {"__slotnames__", "__annotations__", "__protocol_attrs__", "__non_callable_proto_members__",
+                      "_is_runtime_protocol", "__abstractmethods__", "_abc_impl"}
+
+
 def census() -> dict:
     """(class name, attribute) -> descriptor of the raw class-dict entry.  Holds strong references,
     so identities cannot be recycled while a census is alive."""
     out = {}
     for c in CLASSES:
         for k, v in list(vars(c).items()):
-            out[(c.__name__, k)] = _desc(v)
+            if k not in INTERPRETER_CACHES:
+                out[(c.__name__, k)] = _desc(v)
     return out
 
 
